@@ -28,7 +28,7 @@ def run_seed(sid, tier, all_checks, jobs):
             if not os.path.exists(f"{VERIF}/checks/{pid.lower()}.py"):
                 res[pid] = {"rc": None, "note": "no check yet"}
                 continue
-            env = dict(os.environ, VERIF_REPO=wt, VERIF_JOBS=str(jobs))
+            env = dict(os.environ, VERIF_REPO=wt, VERIF_JOBS=str(jobs), VERIF_EVIDENCE_DIR="/tmp/wt/ev")  # never overwrite the registered evidence
             p = subprocess.run([VERIF + "/check", pid, "--tier", tier], cwd=VERIF, env=env, capture_output=True, text=True)
             viol = [l for l in p.stdout.splitlines() if l.startswith("VIOLATION")]
             kinds = [l.strip() for l in p.stderr.splitlines() if l.strip().startswith("violation kinds")]
